@@ -498,10 +498,146 @@ def empty_structures(ctx):
                 ctx.event("empty_structures_checked")
 
 
+def sizeof_of_names(ctx):
+    """sizeof(name) inside expressions = len(type) for every way a type can be named: every built-in name and alias
+    (also the multi-word ones, which are stored as the *name* of their target), typedef chains, aliases added through
+    the API, structures, arrays by typedef."""
+    from ..gen import ALL_INTS, FLOATS, INT_ALIASES, OTHER_ALIASES
+
+    sizes = {n: sz for n, (sz, _) in ALL_INTS.items()}
+    sizes.update(FLOATS)
+    sizes.update({"char": 1, "wchar": 2})
+    want = dict(sizes)
+    want.update({a: sizes[t] for a, t in INT_ALIASES.items()})
+    want.update({a: sizes[t] for a, t in OTHER_ALIASES.items()})
+    extra = ("typedef uint32 A1;\ntypedef A1 A2;\ntypedef uint16 ARR[5];\nstruct S3 { uint8 a; uint16 b; };\n"
+             "typedef S3 S3a;\nunion U4 { uint32 a; uint8 b[6]; };\n")
+    for align in (False, True):
+        cs = lib.load(extra, "<", align, True)
+        cs.add_type("BY_NAME", "uint48")
+        cs.add_type("BY_NAME2", "BY_NAME")
+        w = dict(want)
+        w.update({"A1": 4, "A2": 4, "ARR": 10, "S3": 4 if align else 3, "S3a": 4 if align else 3, "U4": 8 if align else 6,
+                  "BY_NAME": 6, "BY_NAME2": 6})
+        for name, size in sorted(w.items()):
+            ctx.evaluation(("sizeof-name", align, name))
+            ctx.cell("sizeof-of-names:" + ("alias" if name in INT_ALIASES or name in OTHER_ALIASES else "other"))
+            det = {"name": name, "align": align, "workload": "sizeof-of-names", "want": size}
+            try:
+                from dissect.cstruct.expression import Expression as _E
+
+                got = {"len": len(cs.resolve(name)), "expression": _E(cs, f"sizeof({name})").evaluate(),
+                       "expression-in-sum": _E(cs, f"(1 + 1) * sizeof({name}) - sizeof({name})").evaluate()}
+                probe = f"P_{abs(hash(name)) % 10**8}_{int(align)}"
+                cs.load(f"struct {probe} {{ char pad[sizeof({name})]; uint8 mark; uint8 more[sizeof({name}) + 1]; }};", align=align)
+                P = getattr(cs, probe)
+                got["array-size"] = P.fields["mark"].offset
+                got["struct-size"] = len(P) - 2 - size
+                o = P(bytes(range(1, 1 + len(P))))
+                got["parsed"] = int(o.mark) - 1
+                got["dumped"] = len(o.dumps()) - size - 2
+            except Exception as e:  # noqa: BLE001
+                ctx.violation("sizeof", f"sizeof-of-a-type-name-raises:{type(e).__name__}", dict(det, error=lib.exc_sig(e)))
+                continue
+            bad = {k: v for k, v in got.items() if v != size}
+            if bad:
+                ctx.violation("sizeof", "sizeof-in-expression-differs-from-len", dict(det, got=bad))
+            else:
+                ctx.event("sizeof_of_names_checked")
+
+
+def custom_alignments(ctx, rng, n):
+    """A type registered with add_custom_type(name, T, size, alignment) is laid out like any member of that size and
+    alignment: offsets, padding, structure alignment and size, elements of arrays, nesting; bytes consumed and
+    dumped = len."""
+    from dissect.cstruct.types import BaseType
+
+    class Raw(bytes, BaseType):
+        @classmethod
+        def _read(cls, stream, context=None):
+            data = stream.read(cls.size)
+            if len(data) != cls.size:
+                raise EOFError
+            return type.__call__(cls, data)
+
+        @classmethod
+        def _write(cls, stream, data):
+            return stream.write(bytes(data).ljust(cls.size, b"\x00")[:cls.size])
+
+        @classmethod
+        def __default__(cls):
+            return type.__call__(cls, bytes(cls.size))
+
+    for it in range(n):
+        size, al = rng.choice([(6, 2), (4, 8), (3, 1), (12, 4), (2, 2), (5, 4), (8, 1), (1, 2), (16, 8), (10, 2)])
+        for compiled in (True, False):
+            cs = lib.cstruct()
+            cs.add_custom_type("cust", Raw, size, al)
+            pre, post = rng.choice(["uint8", "uint16", "uint32", "uint64"]), rng.choice(["uint8", "uint16", "uint32", "uint64"])
+            k = rng.randint(1, 3)
+            text = (f"struct In {{ uint8 a; cust c; }};\nstruct T {{ {pre} p; cust c; {post} q; cust arr[{k}]; uint8 r; In in; uint8 z; }};")
+            ctx.evaluation(("custom-alignment", size, al, compiled, pre, post, k))
+            ctx.cell("custom-type-alignment")
+            det = {"text": text, "size": size, "alignment": al, "compiled": compiled, "workload": "custom-alignments"}
+            sz = {"uint8": 1, "uint16": 2, "uint32": 4, "uint64": 8}
+
+            def up(x, a):
+                return -(-x // a) * a
+
+            # reference layout (aligned mode)
+            off, fields, maxal = 0, [], 1
+            in_al = max(1, al)
+            in_c = up(1, al)
+            in_size = up(in_c + size, in_al)
+            for nm, s_, a_ in (("p", sz[pre], sz[pre]), ("c", size, al), ("q", sz[post], sz[post]), ("arr", size * k, al),
+                               ("r", 1, 1), ("in", in_size, in_al), ("z", 1, 1)):
+                off = up(off, a_)
+                fields.append((nm, off))
+                off += s_
+                maxal = max(maxal, a_)
+            total = up(off, maxal)
+            try:
+                cs.load(text, align=True, compiled=compiled)
+                T = cs.T
+                got = {"alignment-of-the-type": cs.cust.alignment, "offsets": [(f.name, f.offset) for f in T.__fields__],
+                       "size": len(T), "alignment": T.alignment, "inner": (len(cs.In), cs.In.alignment, cs.In.fields["c"].offset)}
+                wantd = {"alignment-of-the-type": al, "offsets": fields, "size": total, "alignment": maxal,
+                         "inner": (in_size, in_al, in_c)}
+                data = bytes((i * 7 + 1) & 0xFF for i in range(total + 5))
+                import io as _io
+
+                st = _io.BytesIO(data)
+                o = T(st)
+                got["consumed"] = st.tell()
+                wantd["consumed"] = total
+                got["c"] = bytes(o.c)
+                wantd["c"] = data[fields[1][1]:fields[1][1] + size]
+                got["arr"] = [bytes(x) for x in o.arr]
+                wantd["arr"] = [data[fields[3][1] + j * size:fields[3][1] + (j + 1) * size] for j in range(k)]
+                got["in.c"] = bytes(getattr(o, "in").c) if False else bytes(o["in"].c)
+                wantd["in.c"] = data[fields[5][1] + in_c:fields[5][1] + in_c + size]
+                got["dumped"] = len(o.dumps())
+                wantd["dumped"] = total
+                got["reparsed"] = T(o.dumps()) == o
+                wantd["reparsed"] = True
+            except Exception as e:  # noqa: BLE001
+                ctx.violation("custom", f"custom-type-alignment-raises:{type(e).__name__}", dict(det, error=lib.exc_sig(e)))
+                continue
+            bad = {k_: (got[k_], wantd[k_]) for k_ in wantd if got.get(k_) != wantd[k_]}
+            if bad:
+                ctx.violation("custom", "custom-type-not-laid-out-by-its-declared-size-and-alignment", dict(det, differing=repr(bad)[:900]))
+            else:
+                ctx.event("custom_alignments_checked")
+
+
 def run(ctx):
     mixed_modes(ctx, 10 if not ctx.thorough else 150)
     if ctx.shard == 0:
         empty_structures(ctx)
+    if ctx.shard == 1:
+        sizeof_of_names(ctx)
+    if ctx.shard % 4 == 2:
+        custom_alignments(ctx, ctx.rng("custom-alignments"), 6 if not ctx.thorough else 60)
     offset_gaps(ctx, 6 if not ctx.thorough else 120)
     cc = CCompilerOracle(ctx)
     for i in range(N_CASES[ctx.tier]):
@@ -524,6 +660,14 @@ def replay(ctx, detail):
         return
     if detail.get("workload") == "empty-structures":
         empty_structures(ctx)
+        return
+    if detail.get("workload") == "sizeof-of-names":
+        print(detail)
+        sizeof_of_names(ctx)
+        return
+    if detail.get("workload") == "custom-alignments":
+        print(detail)
+        custom_alignments(ctx, ctx.rng("custom-alignments"), 60)
         return
     if detail.get("workload") == "mixed-modes":
         print({k: v for k, v in detail.items()})
